@@ -127,6 +127,14 @@ def check_constructors(prog, rep, eng):
         ok = st[0] == "struct"
         h = field_of(st, "height") if ok else None
         good = False
+
+        def minus_one(t):
+            if t and t[0] == "bin" and t[1] == "+" and ("lit", 1) in (t[2], t[3]):
+                return t[2] if t[3] == ("lit", 1) else t[3]
+            return None
+        if h and h[0] == "ite" and minus_one(h[2]) is not None and minus_one(h[3]) is not None:
+            # `if c { a + 1 } else { b + 1 }` is `(if c { a } else { b }) + 1`
+            h = ("bin", "+", ("ite", h[1], minus_one(h[2]), minus_one(h[3])), ("lit", 1))
         if h and h[0] == "bin" and h[1] == "+" and ("lit", 1) in (h[2], h[3]):
             m = h[2] if h[3] == ("lit", 1) else h[3]
             hl, hr = height_of(pn[0]), height_of(pn[1])
